@@ -10,6 +10,7 @@ FEATURES = {
     "k64": "alloc,rand_core,der,rlp,hybrid-array,serde",
     "k64r": "alloc,rand_core,der,rlp,hybrid-array,serde",
     "k8": "alloc,rand_core",
+    "k8k": "alloc,rand_core",
 }
 MEM_LIMIT = int(os.environ.get("VERIF_MEM_GB", "10")) * (1 << 30)
 
